@@ -30,13 +30,14 @@
 
 const char *verif_harness = "qs_conc";
 using namespace verif;
+void verif_case_reset() { vclock::reset(); }
 
 namespace {
 using Mutex = dsched::sched_mutex;
 using Domain = frg::qs_domain<Mutex>;
 using Agent = frg::qs_agent<Mutex>;
 
-struct Obj { long a, b; int version; bool retired; };
+struct Obj { long a, b; int version; bool retired; vclock::Stamp last_read[4]; };      // last_read[k]: agent k's latest read-side access (vclock.hpp)
 constexpr long DEAD = 0x0DEAD0DEADl;
 
 struct BarrierInfo { int id; int owner; std::set<int> waiting; bool fired = false; Obj *victim = nullptr; };
@@ -70,6 +71,10 @@ void on_grace(frg::qs_node *n) {
 		victim = bi.victim;
 	}
 	if(victim) {
+		for(int k = 0; k < 4; k++) if(!vclock::hb(victim->last_read[k])) {
+			dsched::Ignore ig;
+			if(W->error.empty()) { char buf[260]; snprintf(buf, sizeof buf, "the callback of barrier %d reclaims an object although agent %d's read of it does not happen before the callback: no chain of release sequences (C++20 [intro.races]/5) and acquire loads leads from the reader's quiescent state to run()", b->id, k); W->error = buf; }
+		}
 		// plain writes: everything a reader did with the object before its quiescent state must happen-before this
 		victim->a = DEAD; victim->b = DEAD; victim->retired = true;
 	}
@@ -88,7 +93,7 @@ void verif_case(Ctx &c) {
 	std::vector<Agent *> ag;
 	w.online.assign(nagents, true); w.in_run.assign(nagents, 0); w.in_qs.assign(nagents, 0);
 	std::vector<Obj *> all_objs;
-	auto new_obj = [&](int ver) { Obj *o = (Obj *)malloc(sizeof(Obj)); o->a = ver * 7 + 1; o->b = ~o->a; o->version = ver; o->retired = false; all_objs.push_back(o); return o; };
+	auto new_obj = [&](int ver) { Obj *o = (Obj *)malloc(sizeof(Obj)); memset((void *)o, 0, sizeof(Obj)); o->a = ver * 7 + 1; o->b = ~o->a; o->version = ver; o->retired = false; all_objs.push_back(o); return o; };
 	for(int s = 0; s < 2; s++) w.slot[s].a.store(new_obj(s), std::memory_order_relaxed);
 	// roles: agent 0 updater, agent 1 reader, agent 2 (if any) independent barrier cycler or second reader
 	std::vector<Script> scripts(nagents);
@@ -115,6 +120,7 @@ void verif_case(Ctx &c) {
 	auto read_side = [&](int a, unsigned which) {
 		Obj *o = w.slot[which & 1].load(std::memory_order_acquire);
 		long x = o->a; dsched::point(); long y = o->b; bool ret = o->retired;      // plain reads inside the read-side section
+		o->last_read[a & 3] = vclock::now();
 		dsched::Ignore ig;
 		if((x == DEAD || y == DEAD || ret || y != ~x) && w.error.empty()) { char buf[160]; snprintf(buf, sizeof buf, "reader agent %d saw an object that its grace-period callback had already overwritten (a=%lx b=%lx)", a, x, y); w.error = buf; }
 	};
